@@ -358,7 +358,35 @@ func c11Run(c c11Case) (v vVerdict) {
 			if sc.isSourceActive {
 				return vFailf("stop-left-active", "step %d: after Stop returned the RPC layer still has an active source", i)
 			}
+			if was && err == nil {
+				for _, src := range []struct {
+					name string
+					ds   DataSource
+				}{{"triangle", sc.triangle}, {"simpulse", sc.simPulses}, {"erroring", sc.erroring}} {
+					if src.ds != nil && src.ds.Running() {
+						return vFailf("stop-left-source-running", "step %d: Stop returned success but the %s source is still running", i, src.name)
+					}
+				}
+			}
 			e.classes["stopped"] = true
+			continue
+		case "startother":
+			// a client asks for another source while one runs: refused, and the running one stays the one that Stop stops
+			if !c.RealRPC || !sc.isSourceActive || !e.running {
+				continue
+			}
+			other := map[string]string{"triangle": "SIMPULSESOURCE", "simpulse": "TRIANGLESOURCE", "scripted": "SIMPULSESOURCE"}[c.Source]
+			if other == "" {
+				continue
+			}
+			err, bad = e.call("Start", func() error { var r bool; return sc.Start(&other, &r) })
+			if bad != nil {
+				return *bad
+			}
+			if err == nil {
+				return vFailf("start-while-active", "step %d: Start(%s) succeeded although a source was already active", i, other)
+			}
+			e.classes["other-source-requested-while-running"] = true
 			continue
 		case "selfend":
 			if e.scripted == nil || !e.running || c.RealRPC {
@@ -882,7 +910,7 @@ func c11GenStep(t *rapid.T, c *c11Case) c11Step {
 	case k < 23:
 		return c11Step{Op: "mapload", N: rapid.SampledFrom([]int{c.Nchan, c.Nchan, c.Nchan - 1, c.Nchan + 1, 0, 3}).Draw(t, "npix"), Kind: rapid.SampledFrom([]string{"", "", "", "missing"}).Draw(t, "mapkind")}
 	case k < 24:
-		return c11Step{Op: rapid.SampledFrom([]string{"mapunload", "sendall", "wait"}).Draw(t, "misc"), N: rapid.IntRange(0, 7).Draw(t, "waitn")}
+		return c11Step{Op: rapid.SampledFrom([]string{"mapunload", "sendall", "wait", "startother"}).Draw(t, "misc"), N: rapid.IntRange(0, 7).Draw(t, "waitn")}
 	default:
 		// the fault hits a request handler only (comment.txt cannot be created); removing the whole run directory would
 		// also break the lazily created data files, whose failure stops the server by design
@@ -917,6 +945,9 @@ func c11Gen(t *rapid.T) c11Case {
 			c11Step{Op: "proj", Src: ch, Kind: rapid.SampledFrom([]string{"valid3", "valid3", "valid"}).Draw(t, "reproj")}, c11Step{Op: "wait", N: 7}, c11Step{Op: "wait", N: 7})
 	} else if rapid.IntRange(0, 2).Draw(t, "writing") != 0 {
 		c.Steps = append(c.Steps, c11Step{Op: "wc", Request: "START", Types: 1})
+	}
+	if c.RealRPC && rapid.IntRange(0, 2).Draw(t, "startother") == 0 {
+		c.Steps = append(c.Steps, c11Step{Op: "startother"})
 	}
 	some("running", 2, 14)
 	switch rapid.IntRange(0, 3).Draw(t, "ending") {
